@@ -1,6 +1,7 @@
 package main
 
 import (
+	"bytes"
 	"encoding/binary"
 	"fmt"
 	"math"
@@ -10,6 +11,12 @@ import (
 
 	"github.com/Fantom-foundation/lachesis-base/emitter/ancestor"
 	"github.com/Fantom-foundation/lachesis-base/hash"
+	"github.com/Fantom-foundation/lachesis-base/inter/dag"
+	"github.com/Fantom-foundation/lachesis-base/inter/idx"
+	"github.com/Fantom-foundation/lachesis-base/inter/pos"
+	"github.com/Fantom-foundation/lachesis-base/kvdb/memorydb"
+	"github.com/Fantom-foundation/lachesis-base/utils/adapters"
+	"github.com/Fantom-foundation/lachesis-base/vecfc"
 
 	"verifharness/vu"
 )
@@ -101,9 +108,220 @@ func c19RunMC(in []string) []string {
 	return []string{vu.Itoa(k)}
 }
 
+// MS <mode> ; T nm (id metric).. ; H n opts.. ; ...
+//
+//	ONE MetricStrategy object used for every H while the metric function (a table) is replaced by the T
+//	steps in between.  mode p: NewMetricStrategy(fn);  mode c: NewMetricStrategy(NewMetricFnCache(fn,128).GetMetricOf)
+//	Observation: one index per H.
+func c19RunMS(in []string) []string {
+	table := map[hash.Event]ancestor.Metric{}
+	fn := func(h hash.Event) ancestor.Metric { return table[h] }
+	var st *ancestor.MetricStrategy
+	if in[1] == "c" {
+		st = ancestor.NewMetricStrategy(ancestor.NewMetricFnCache(fn, 128).GetMetricOf)
+	} else {
+		st = ancestor.NewMetricStrategy(fn)
+	}
+	var obs []string
+	var step []string
+	do := func() {
+		if len(step) == 0 {
+			return
+		}
+		pu := func(s string) uint64 { v, _ := strconv.ParseUint(s, 10, 64); return v }
+		switch step[0] {
+		case "T":
+			table = map[hash.Event]ancestor.Metric{}
+			nm := int(pu(step[1]))
+			for i := 0; i < nm; i++ {
+				table[c19Hash(pu(step[2+2*i]))] = ancestor.Metric(pu(step[3+2*i]))
+			}
+			vu.Stat("ms.table_changed")
+		case "H":
+			n := int(pu(step[1]))
+			opts := make(hash.Events, 0, n)
+			for i := 0; i < n; i++ {
+				opts = append(opts, c19Hash(pu(step[2+i])))
+			}
+			obs = append(obs, vu.Itoa(st.Choose(nil, opts)))
+			vu.Stat("ms.choose." + in[1])
+		}
+		step = nil
+	}
+	for _, t := range in[2:] {
+		if t == ";" {
+			do()
+		} else {
+			step = append(step, t)
+		}
+	}
+	do()
+	return obs
+}
+
+// QI <nv> <weight>*nv <diffk> <self> ; E id creator seq lamport np parents.. ; P id self ; C ne existing.. no options.. ns ; ...
+//
+//	a real ancestor.QuorumIndexer over a real vecfc.Index (adapters.VectorToDagIndexer) on a small DAG.
+//	E adds an event to the vector index, P = qi.ProcessEvent(event, self),
+//	C = ChooseParents(existing, options, ns x qi.SearchStrategy()) with the strategy obtained at that moment
+//	(as an emitter does) and wrapped by a recorder which, at choose time, also asks qi.GetMetricOf for
+//	every option it was shown.
+//	Observation per C:  c ( r np parents.. n options.. idx metric*n )* res ok|.. n result..
+type c19QIRec struct {
+	inner ancestor.SearchStrategy
+	qi    *ancestor.QuorumIndexer
+	num   map[hash.Event]int
+	out   *[]string
+}
+
+func (s *c19QIRec) Choose(existing hash.Events, options hash.Events) int {
+	k := s.inner.Choose(existing, options)
+	o := []string{"r", vu.Itoa(len(existing))}
+	for _, h := range existing {
+		o = append(o, vu.Itoa(s.num[h]))
+	}
+	o = append(o, vu.Itoa(len(options)))
+	for _, h := range options {
+		o = append(o, vu.Itoa(s.num[h]))
+	}
+	o = append(o, vu.Itoa(k))
+	for _, h := range options {
+		o = append(o, vu.U64(uint64(s.qi.GetMetricOf(h)))) // the metric NOW
+	}
+	*s.out = append(*s.out, o...)
+	return k
+}
+
+func c19Diff(k int) ancestor.DiffMetricFn {
+	if k == 1 { // progress towards the global median only
+		return func(median, current, update idx.Event, _ idx.Validator) ancestor.Metric {
+			if update <= current || current >= median {
+				return 0
+			}
+			if update > median {
+				update = median
+			}
+			return ancestor.Metric(update - current)
+		}
+	}
+	return func(median, current, update idx.Event, _ idx.Validator) ancestor.Metric { // events not yet observed
+		if update <= current {
+			return 0
+		}
+		return ancestor.Metric(update - current)
+	}
+}
+
+func c19RunQI(in []string) []string {
+	at := func(s string) int { v, _ := strconv.Atoi(s); return v }
+	nv := at(in[1])
+	b := pos.NewBuilder()
+	for i := 0; i < nv; i++ {
+		b.Set(idx.ValidatorID(i+1), pos.Weight(at(in[2+i])))
+	}
+	vals := b.Build()
+	diffk := at(in[2+nv])
+	crit := func(err error) { panic(err) }
+	index := vecfc.NewIndex(crit, vecfc.LiteConfig())
+	events := map[hash.Event]dag.Event{}
+	byNum := map[int]dag.Event{}
+	num := map[hash.Event]int{}
+	index.Reset(vals, memorydb.New(), func(id hash.Event) dag.Event {
+		if e, ok := events[id]; ok {
+			return e
+		}
+		return nil
+	})
+	qi := ancestor.NewQuorumIndexer(vals, &adapters.VectorToDagIndexer{Index: index}, c19Diff(diffk))
+	var obs []string
+	var step []string
+	selfSinceChoose := false
+	do := func() {
+		if len(step) == 0 {
+			return
+		}
+		switch step[0] {
+		case "E":
+			me := &dag.MutableBaseEvent{}
+			me.SetEpoch(1)
+			me.SetFrame(1)
+			me.SetCreator(idx.ValidatorID(at(step[2])))
+			me.SetSeq(idx.Event(at(step[3])))
+			me.SetLamport(idx.Lamport(at(step[4])))
+			var ps hash.Events
+			for i := 0; i < at(step[5]); i++ {
+				ps = append(ps, byNum[at(step[6+i])].ID())
+			}
+			me.SetParents(ps)
+			var tail [24]byte
+			binary.BigEndian.PutUint64(tail[16:], uint64(at(step[1])))
+			e := me.Build(tail)
+			events[e.ID()], byNum[at(step[1])], num[e.ID()] = e, e, at(step[1])
+			if err := index.Add(e); err != nil {
+				panic(err)
+			}
+			index.Flush()
+		case "P":
+			qi.ProcessEvent(byNum[at(step[1])], step[2] == "1")
+			if step[2] == "1" {
+				selfSinceChoose = true
+			}
+			vu.Stat("qi.process.self=" + step[2])
+		case "C":
+			p := 1
+			ids := func() hash.Events {
+				n := at(step[p])
+				p++
+				hh := make(hash.Events, 0, n)
+				for i := 0; i < n; i++ {
+					hh = append(hh, byNum[at(step[p])].ID())
+					p++
+				}
+				return hh
+			}
+			existing, options := ids(), ids()
+			ns := at(step[p])
+			medBefore := append([]idx.Event{}, qi.GetGlobalMedianSeqs()...)
+			st := qi.SearchStrategy()
+			strategies := make([]ancestor.SearchStrategy, ns)
+			for i := range strategies {
+				strategies[i] = &c19QIRec{inner: st, qi: qi, num: num, out: &obs}
+			}
+			obs = append(obs, "c")
+			res := ancestor.ChooseParents(existing, options, strategies)
+			obs = append(obs, "res", "ok", vu.Itoa(len(res)))
+			for _, h := range res {
+				obs = append(obs, vu.Itoa(num[h]))
+			}
+			vu.Stat("qi.choose")
+			if selfSinceChoose {
+				vu.Stat("qi.choose_after_self_event")
+			}
+			selfSinceChoose = false
+			_ = medBefore
+		}
+		step = nil
+	}
+	for _, t := range in[3+nv+1:] {
+		if t == ";" {
+			do()
+		} else {
+			step = append(step, t)
+		}
+	}
+	do()
+	_ = bytes.Compare
+	return obs
+}
+
 func c19Run(in []string) []string {
-	if in[0] == "MC" {
+	switch in[0] {
+	case "MC":
 		return c19RunMC(in)
+	case "MS":
+		return c19RunMS(in)
+	case "QI":
+		return c19RunQI(in)
 	}
 	p := 1
 	next := func() string { s := in[p]; p++; return s }
@@ -302,6 +520,99 @@ func c19Metric(r *rand.Rand) uint64 {
 	return uint64(r.Intn(4))
 }
 
+func c19GenQI(r *rand.Rand) []string {
+	nv := 2 + r.Intn(4)
+	t := []string{"QI", vu.Itoa(nv)}
+	equal := r.Intn(2) == 0
+	for i := 0; i < nv; i++ {
+		w := 1
+		if !equal {
+			w = 1 + r.Intn(5)
+		}
+		t = append(t, vu.Itoa(w))
+	}
+	self := 1 + r.Intn(nv)
+	t = append(t, vu.Itoa(r.Intn(2)), vu.Itoa(self))
+	last := make([]int, nv+1) // last event id of each validator (0 = none)
+	seq := make([]int, nv+1)
+	lam := map[int]int{}
+	var all []int
+	nextID := 1
+	heads := func(except int) []int {
+		var h []int
+		for c := 1; c <= nv; c++ {
+			if c != except && last[c] != 0 {
+				h = append(h, last[c])
+			}
+		}
+		return h
+	}
+	choose := func(existing []int) {
+		opts := heads(self)
+		if r.Intn(4) == 0 && len(all) > 0 { // an older event as well, a duplicate
+			opts = append(opts, all[r.Intn(len(all))])
+		}
+		if r.Intn(6) == 0 && len(opts) > 0 {
+			opts = append(opts, opts[0])
+		}
+		t = append(t, ";", "C", vu.Itoa(len(existing)))
+		for _, x := range existing {
+			t = append(t, vu.Itoa(x))
+		}
+		t = append(t, vu.Itoa(len(opts)))
+		for _, x := range opts {
+			t = append(t, vu.Itoa(x))
+		}
+		t = append(t, vu.Itoa(1+r.Intn(3)))
+	}
+	for step, n := 0, 8+r.Intn(18); step < n; step++ {
+		c := 1 + r.Intn(nv)
+		if r.Intn(3) == 0 {
+			c = self
+		}
+		var ps []int
+		if last[c] != 0 {
+			ps = append(ps, last[c])
+		}
+		for o := 1; o <= nv; o++ {
+			if o != c && last[o] != 0 && r.Intn(5) < 3 {
+				ps = append(ps, last[o])
+			}
+		}
+		l := 0
+		for _, p := range ps {
+			if lam[p] > l {
+				l = lam[p]
+			}
+		}
+		id := nextID
+		nextID++
+		seq[c]++
+		lam[id] = l + 1
+		t = append(t, ";", "E", vu.Itoa(id), vu.Itoa(c), vu.Itoa(seq[c]), vu.Itoa(l+1), vu.Itoa(len(ps)))
+		for _, p := range ps {
+			t = append(t, vu.Itoa(p))
+		}
+		last[c] = id
+		all = append(all, id)
+		if r.Intn(10) != 0 {
+			flag := c == self
+			if r.Intn(20) == 0 {
+				flag = !flag
+			}
+			t = append(t, ";", "P", vu.Itoa(id), vu.B(flag))
+		}
+		if c == self || r.Intn(4) == 0 {
+			var ex []int
+			if last[self] != 0 && r.Intn(5) != 0 {
+				ex = []int{last[self]}
+			}
+			choose(ex)
+		}
+	}
+	return t
+}
+
 func init() {
 	vu.Register("C19", &vu.Prop{
 		Gen: func(r *rand.Rand, n int, tier string, emit func(...string)) {
@@ -383,6 +694,35 @@ func init() {
 					}
 					emit(t...)
 				}
+			}
+			// ONE MetricStrategy object reused while the metric function changes between calls
+			for i := 0; i < 40+n/40; i++ {
+				pool := 2 + r.Intn(6)
+				t := []string{"MS", []string{"p", "c"}[r.Intn(2)]}
+				for j, k := 0, 2+r.Intn(4); j < k; j++ {
+					t = append(t, ";", "T")
+					var tb []string
+					for id := 0; id < pool; id++ {
+						if r.Intn(5) != 0 {
+							tb = append(tb, vu.Itoa(id), vu.U64(c19Metric(r)))
+						}
+					}
+					t = append(t, vu.Itoa(len(tb)/2))
+					t = append(t, tb...)
+					for h, hk := 0, 1+r.Intn(2); h < hk; h++ {
+						ln := 1 + r.Intn(6)
+						t = append(t, ";", "H", vu.Itoa(ln))
+						for x := 0; x < ln; x++ {
+							t = append(t, vu.Itoa(r.Intn(pool)))
+						}
+					}
+				}
+				emit(t...)
+			}
+			// the strategy handed out by a real QuorumIndexer (real vecfc index, small DAG), used before and
+			// after own events
+			for i := 0; i < 60+n/30; i++ {
+				emit(c19GenQI(r)...)
 			}
 			// MetricStrategy.Choose called directly: duplicates, the empty list, all-zero and tied metrics
 			for i := 0; i < n/4+20; i++ {
